@@ -37,7 +37,8 @@ prop("C01", "c01",
      "necessary condition for a positive answer; observed positive answer must imply it, and a failed pipeline must "
      "yield status >= 300 / denied / gRPC error with the upstream hit counter unchanged. Non-trivial: a step failed, was "
      "skipped, had an unevaluable condition or panicked, or an error handler ran; distinct by the full scenario string.",
-     [dict(run="^TestPositiveAnswerOnlyAfterCompletePipeline$", quick=2500, thorough=72000, shards_thorough=12)],
+     [dict(run="^TestPositiveAnswerOnlyAfterCompletePipeline$", quick=2500, thorough=72000, shards_thorough=12),
+      dict(run="^TestConcurrentRequestsAreDecidedOnTheirOwn$", quick=1, thorough=1, shards_thorough=2, race=True)],
      ["which authenticator failure permits fallback is C04's subject: the model only requires that some authenticator "
       "succeeded and nothing executed before it panicked", "redirect codes are 3xx, status overrides left at defaults (C12)"],
      level="Randomised generated search over pipelines x outcome vectors x error pipelines x entry points on the fully "
@@ -297,6 +298,7 @@ prop("C16", "c16",
       dict(run="^TestTokensOfEverySignerVerifyAgainstThePublishedKeySet$", quick=600, thorough=3000, shards_thorough=4),
       dict(run="^TestTokensHandedOutAfterAReloadVerify$", quick=1200, thorough=4000, shards_thorough=4),
       dict(run="^TestTokensVerifyWhileTheCertificateOfTheKeyRunsOut$", quick=4, thorough=48, shards_thorough=8),
+      dict(run="^TestSignersWhoseSettingsReadAlikeKeepTheirTokensApart$", quick=200, thorough=2000, shards_thorough=2),
       dict(run="^TestConcurrentIssuanceAndReload$", quick=1, thorough=1, shards_thorough=1, race=True),
       dict(run="^TestScheduledIssuanceAndReload$", quick=1500, thorough=30000, shards_thorough=4, instrument=True)],
      ["tokens served from cache across a reload are out of scope (the concurrent part uses a ttl below the caching threshold)",
@@ -473,7 +475,9 @@ ADDED = {
     "C13": "Also: the check request as Envoy's API describes it (request target incl. query as path, pseudo headers), the decision service asked the way a gateway "
            "does (X-Forwarded-* from a trusted proxy), extension methods, chunked bodies, duplicate / quoted cookies, content type spellings, raw path and URL "
            "string and Host header in the view, empty-valued and odd pipeline headers / cookies, characters not valid in an escaped path. Queries holding a question mark, a slash, semicolons, empty members.",
-    "C01": "Also: steps failing with an abandoned or timed out call as cause (context.Canceled / DeadlineExceeded inside and outside of a heimdall error).",
+    "C01": "Also: steps failing with an abandoned or timed out call as cause (context.Canceled / DeadlineExceeded inside and outside of a heimdall error). "
+           "A concurrent unit under the race detector: requests for which the condition of a denying step holds and requests for which it does not run through "
+           "the same rules from 12 goroutines on every entry point; none of the former is answered positively.",
     "C17": "Also: a unit in which later pipeline steps change the subject they were given (dict functions of the template engine): subjects created afterwards by "
            "the catalogue entry, its variants and other authenticators are those of a world in which nobody did. Pairs of overrides which read the same once quotes and the ends of elements are dropped.",
     "C14": "Also: generated on_error pipelines with repeated handlers and overrides, overrides which are not a mapping. A rule for a deeper path loaded before the rule under test.",
